@@ -328,9 +328,12 @@ bool Plan::DyndepsLoaded(DependencyScan* scan,
                          const std::vector<Node*>& dyndep_nodes,
                          const std::unordered_map<Edge*, Dyndeps>& dyndep_edges,
                          std::string* err) {
+  // Edges added to the plan below; they are checked for readiness at the end.
+  std::set<Edge*> dyndep_walk;
+
   // Recompute the dirty state of all our direct and indirect dependents now
   // that our dyndep information has been loaded.
-  if (!RefreshDyndepDependents(scan, dyndep_nodes, err))
+  if (!RefreshDyndepDependents(scan, dyndep_nodes, &dyndep_walk, err))
     return false;
 
   // We loaded dyndep information for those out_edges of the dyndep nodes that
@@ -361,7 +364,6 @@ bool Plan::DyndepsLoaded(DependencyScan* scan,
   }
 
   // Walk dyndep-discovered portion of the graph to add it to the build plan.
-  std::set<Edge*> dyndep_walk;
   for (std::vector<std::unordered_map<Edge*, Dyndeps>::const_iterator>::iterator
            oei = dyndep_roots.begin();
        oei != dyndep_roots.end(); ++oei) {
@@ -401,6 +403,7 @@ bool Plan::DyndepsLoaded(DependencyScan* scan,
 
 bool Plan::RefreshDyndepDependents(DependencyScan* scan,
                                    const std::vector<Node*>& dyndep_nodes,
+                                   std::set<Edge*>* dyndep_walk,
                                    string* err) {
   // Collect the transitive closure of dependents and mark their edges
   // as not yet visited by RecomputeDirty.
@@ -421,14 +424,16 @@ bool Plan::RefreshDyndepDependents(DependencyScan* scan,
       return false;
 
     // Add any validation nodes found during RecomputeDirty as new top level
-    // targets.
+    // targets.  The build is already running, so nobody will schedule their
+    // edges that are ready now unless they are put on the walk.
     for (std::vector<Node*>::iterator v = validation_nodes.begin();
          v != validation_nodes.end(); ++v) {
       if (Edge* in_edge = (*v)->in_edge()) {
-        if (!in_edge->outputs_ready() &&
-            !AddTarget(*v, err)) {
+        if (in_edge->outputs_ready())
+          continue;
+        targets_.push_back(*v);
+        if (!AddSubTarget(*v, NULL, err, dyndep_walk) && !err->empty())
           return false;
-        }
       }
     }
     if (!n->dirty())
